@@ -475,6 +475,31 @@ func assembleTestFile(pkg string, tests []*replayTest, names []string) string {
 	return b.String()
 }
 
+// runGoTestNamed injects a test file into package pkg via -overlay and runs the named test.
+func runGoTestNamed(repo, pkg, test, run string) (string, bool) {
+	dir, err := os.MkdirTemp("", "govc-witness-")
+	if err != nil {
+		return err.Error(), false
+	}
+	defer os.RemoveAll(dir)
+	tf := filepath.Join(dir, "zz_govc_witness_test.go")
+	os.WriteFile(tf, []byte(test), 0o644)
+	ov := map[string]map[string]string{"Replace": {filepath.Join(repo, pkg, "zz_govc_witness_test.go"): tf}}
+	ob, _ := json.Marshal(ov)
+	of := filepath.Join(dir, "ov.json")
+	os.WriteFile(of, ob, 0o644)
+	ctx, cancel := context.WithTimeout(context.Background(), 180*time.Second)
+	defer cancel()
+	cmd := exec.CommandContext(ctx, "go", "test", "-overlay", of, "-vet=off", "-timeout", "60s", "-run", "^"+run+"$", "-count=1", "-v", "./"+pkg+"/")
+	cmd.Dir = repo
+	cmd.Env = goEnv()
+	var out bytes.Buffer
+	cmd.Stdout = &out
+	cmd.Stderr = &out
+	err = cmd.Run()
+	return out.String(), err == nil
+}
+
 // runGoTest injects test into the package of fnKey via -overlay and runs it. Returns output and whether it ran.
 func runGoTest(repo, fnKey, test string) (string, bool) {
 	pkg := strings.SplitN(fnKey, ".", 2)[0]
